@@ -65,7 +65,7 @@ def unnamedScan : Nat → Cursor → Nat → Nat → Nat × Cursor
           if glued then (len', c1) else unnamedScan fuel c1 len' depth'
 
 /-- `parse_unnamed_url` + `preprocess_unnamed_url` up to the external call -/
-def parseUnnamedUrl (env : ProcEnv) (c : Cursor) : Res ((UCall × List Char × List (List Nat)) × Cursor) :=
+def parseUnnamedUrl (env : ProcEnv) (c : Cursor) : Res ((UCall × List Char × List (List Nat) × Nat) × Cursor) :=
   let c0 := c.eatWhitespace
   let start := c0.pos
   let (len, c1) := unnamedScan (c0.rest.length + 1) c0 0 0
@@ -98,7 +98,7 @@ def parseUnnamedUrl (env : ProcEnv) (c : Cursor) : Res ((UCall × List Char × L
             else if knownScheme scheme then ⟨.url, expanded, start, len⟩
             else ⟨.path, expanded, start, len⟩
           | none => ⟨.path, expanded, start, len⟩
-        .ok ((call, u, extras), c1)
+        .ok ((call, u, extras, start + len), c1)
 
 /-- `parse_unnamed_requirement` -/
 def parseUnnamed (env : ProcEnv) (x : Ext) (input : List Char) : UOut :=
@@ -106,8 +106,8 @@ def parseUnnamed (env : ProcEnv) (x : Ext) (input : List Char) : UOut :=
   match parseUnnamedUrl env c with
   | .err e => ⟨none, .err e⟩
   | .panic s => ⟨none, .panic s⟩
-  | .ok ((call, given, extras), c) =>
-    let requirementEnd := c.pos
+  | .ok ((call, given, extras, requirementEnd), c) =>
+    -- (F22) the end of the URL text, not the cursor (which may be past the blank that ended the URL)
     let c := c.eatWhitespace
     let markerRes : Res (Option MTree × List WarnKind × Cursor) :=
       if c.peekChar == some ';' then
